@@ -45,6 +45,63 @@ theorem c12_detached (live other : Node) (us : Bool) :
     ∀ d ∈ (updateFrom live other us).det, d.hdr.parent = none :=
   det_updateFrom (fun d => d.hdr.parent = none) detach_parent other live us
 
+/-! ### children: what a merged NamespaceSet contains after a successful `update_nss_from`
+    (`updateNss` is exactly what `update_from` runs for every NamespaceSet attribute, at every depth) -/
+
+/-- Every member of the merged set is (a) the live object that was stored under the SAME key, updated in place by the
+    recursive `update_from` (Referable of the same class) or attribute copy (Qualifier/Extension) from the object of the
+    copy that carries this key — so it keeps its identity, and the statement applies again to its own sets (every depth);
+    or (b) an object of the copy, adopted: its parent is the live namespace and it is filed under its current key;
+    or (c) an untouched member of the live set. -/
+theorem c12_merged_set_members (puid : Uid) (lsh osh : SetHdr) (sib : List Key) (litems oitems : Items)
+    (he : (updateNss puid lsh osh sib litems oitems).err = none) (k : Key) (n : Node)
+    (hm : (k, n) ∈ (updateNss puid lsh osh sib litems oitems).items) :
+    (∃ l o bk, (bk, o) ∈ oitems ∧ o.hdr.key = k ∧ AList.get k litems = some l ∧ n.hdr.uid = l.hdr.uid ∧
+        n.hdr.parent = l.hdr.parent ∧ n.hdr.key = k ∧
+        ((o.hdr.kind = Kind.referable ∧ l.hdr.cls = o.hdr.cls ∧ n = (updateFrom l o true).live) ∨
+         (o.hdr.kind ≠ Kind.referable ∧ n = copyItem l o))) ∨
+    (∃ o bk, (bk, o) ∈ oitems ∧ n.hdr.uid = o.hdr.uid ∧ n.hdr.parent = some puid ∧ n.hdr.key = k ∧ k ≠ Key.none ∧
+        n.hdr.cls = o.hdr.cls ∧ n.hdr.plain = o.hdr.plain ∧ n.sets = o.sets) ∨
+    (k, n) ∈ litems := by
+  rcases members_updateNss puid lsh osh sib litems oitems he k n hm with h | ⟨l, o, bk, h1, h2, h3, h4⟩ | ⟨o, bk, pr, h1, h2⟩
+  · exact Or.inr (Or.inr h)
+  · refine Or.inl ⟨l, o, bk, h1, h2, h3, ?_, ?_, ?_, h4⟩
+    · rcases h4 with ⟨_, _, rfl⟩ | ⟨_, rfl⟩
+      · simp [updateFrom_hdr, copyPlain]
+      · cases l; simp [copyItem, Node.setHdr, Node.hdr]
+    · rcases h4 with ⟨_, _, rfl⟩ | ⟨_, rfl⟩
+      · simp [updateFrom_hdr, copyPlain]
+      · cases l; simp [copyItem, Node.setHdr, Node.hdr]
+    · rcases h4 with ⟨_, _, rfl⟩ | ⟨_, rfl⟩
+      · simp [updateFrom_hdr, copyPlain, h2]
+      · cases l; simp only [copyItem, Node.setHdr, Node.hdr]; exact h2
+  · obtain ⟨a1, a2, a3, a4, _, a6, a7, a8⟩ := adopt_ok h2
+    exact Or.inr (Or.inl ⟨o, bk, h1, a1, a2, a3, a4, a6, a7, a8⟩)
+
+/-- the fix: a matched Qualifier / Extension becomes equal to the copy's (all attributes; same class and attribute
+    names, no sets) while staying the same object -/
+theorem c12_item_updated (l o : Node) (b : Bool) (hc : l.hdr.cls = o.hdr.cls)
+    (hk : AList.keys l.hdr.plain = AList.keys o.hdr.plain) (hn : (AList.keys o.hdr.plain).Nodup)
+    (hl : l.sets = []) (ho : o.sets = []) (hs : AList.get "source" o.hdr.plain = none) :
+    canon b (copyItem l o) = canon b o ∧ (copyItem l o).hdr.uid = l.hdr.uid := by
+  cases l with
+  | mk lh ls =>
+    cases o with
+    | mk oh os =>
+      simp only [Node.sets] at hl ho
+      subst hl; subst ho
+      simp only [Node.hdr] at hc hk hn hs
+      have := canonPlain_copyVars true oh.plain lh.plain hk hn
+      simp [copyItem, Node.setHdr, Node.hdr, canon, canonSets, hc, this]
+
+/-- equality of the root's own attributes (class, identifying attribute, every plain attribute but `source`) for ANY
+    pair of trees of one shape -/
+theorem c12_equal_root (live other : Node) (us : Bool)
+    (hk : AList.keys live.hdr.plain = AList.keys other.hdr.plain) (hn : (AList.keys other.hdr.plain).Nodup) :
+    canonPlain (updateFrom live other us).live.hdr.plain = canonPlain other.hdr.plain ∧
+    (updateFrom live other us).live.hdr.key = other.hdr.key := by
+  simp [updateFrom_hdr, copyPlain, canonPlain_copyVars us _ _ hk hn]
+
 /-! ### non-vacuity and witnesses (concrete trees) -/
 
 def pv (s : String) : PVal := ⟨0, none, s⟩
@@ -74,5 +131,47 @@ example : (updateFrom (op 1 [(.str "v", leaf 2 (some 1) "v" "1")] [])
 theorem c12_contained_root_renamed_witness :
     (updateFrom (leaf 2 (some 1) "x" "1") (leaf 12 none "y" "2") false).live.hdr.key = .str "y" ∧
     (updateFrom (leaf 2 (some 1) "x" "1") (leaf 12 none "y" "2") false).live.hdr.parent = some 1 := by decide
+
+/-! ### equality at every depth — TESTS on concrete nested trees (kernel-evaluated `decide`, not a theorem for all
+    trees; the general statement `canon (updateFrom l n).live = canon n` is exercised by the correspondence run and the
+    oracle; see design/C12.md "what is missing") -/
+
+def qual (u : Uid) (par : Option Uid) (t v : String) : Node :=
+  .mk ⟨u, "Qualifier", .qualifier, par, .str t, [("_value", pv v)]⟩ []
+def smc (u : Uid) (par : Option Uid) (k : String) (cat : String) (q : Items) (v : Items) : Node :=
+  .mk ⟨u, "SubmodelElementCollection", .referable, par, .str k, [("_category", pv cat), ("source", pv "")]⟩
+    [(⟨"qualifier", "type", false⟩, q), (⟨"value", "id_short", false⟩, v)]
+
+mutual
+def ceq : CTree → CTree → Bool
+  | .mk c k p s, .mk c' k' p' s' => c == c' && k == k' && p == p' && ceqSets s s'
+def ceqSets : List (String × List CTree) → List (String × List CTree) → Bool
+  | [], [] => true
+  | (n, l) :: r, (n', l') :: r' => n == n' && ceqList l l' && ceqSets r r'
+  | _, _ => false
+def ceqList : List CTree → List CTree → Bool
+  | [], [] => true
+  | a :: r, a' :: r' => ceq a a' && ceqList r r'
+  | _, _ => false
+end
+
+def liveT : Node := smc 1 none "root" "A" [(.str "q", qual 2 (some 1) "q" "1")]
+  [(.str "x", smc 3 (some 1) "x" "B" [(.str "q", qual 4 (some 3) "q" "1")] [(.str "y", leaf 5 (some 3) "y" "1")]),
+   (.str "gone", leaf 6 (some 1) "gone" "0")]
+def newT : Node := smc 11 none "root" "A2" [(.str "q", qual 12 (some 11) "q" "2"), (.str "q2", qual 17 (some 11) "q2" "9")]
+  [(.str "x", smc 13 (some 11) "x" "B2" [(.str "q", qual 14 (some 13) "q" "3")] [(.str "y", leaf 15 (some 13) "y" "7"),
+      (.str "z", leaf 18 (some 13) "z" "8")]),
+   (.str "new", leaf 16 (some 11) "new" "0")]
+
+/-- a three-level update with changed qualifier values, attribute changes, an added and a removed child at two levels:
+    succeeds, is equal at every depth, keeps the identity of root / child / grandchild / qualifiers, detaches `gone` -/
+example : (updateFrom liveT newT false).err = none := by decide
+example : ceq (canon false (updateFrom liveT newT false).live) (canon false newT) = true := by decide
+example : (child (updateFrom liveT newT false).live "value" (.str "x")).map (·.hdr.uid) = some 3 := by decide
+example : ((child (updateFrom liveT newT false).live "value" (.str "x")).bind
+    (fun x => child x "value" (.str "y"))).map (·.hdr.uid) = some 5 := by decide
+example : ((child (updateFrom liveT newT false).live "value" (.str "x")).bind
+    (fun x => child x "qualifier" (.str "q"))).map (fun q => (q.hdr.uid, q.hdr.plain)) = some (4, [("_value", pv "3")]) := by decide
+example : (updateFrom liveT newT false).det.map (fun d => (d.hdr.uid, d.hdr.parent)) = [(6, none)] := by decide
 
 end Basyx.Update
